@@ -362,3 +362,39 @@ Proof.
   - intros n I E. destruct (Q n I E) as (P & B & M). tauto.
   - exact Cl.
 Qed.
+
+(* ------------------------------------------------------------------ other ids, other sessions *)
+(* An ACK or RST whose (session, mid) is not in the queue is, for the queue, just a prepare call
+   whose result nobody sees (plus, for RST, a handler call without PDU). *)
+Theorem rt_unknown_ack_rst : forall st s m,
+  sq_remove (rs_q st) s m = None ->
+  rt_step st (RtAck s m) = rt_fire_all st /\
+  rt_step st (RtRst s m) =
+    (fst (rt_fire_all st), RoNackNoPdu (rs_now st) s rt_NACK_RST m :: snd (rt_fire_all st)).
+Proof.
+  intros st s m H. cbn [rt_step]. unfold rt_ack, rt_rst. rewrite H.
+  destruct (rt_fire_all st); split; reflexivity.
+Qed.
+
+(* One that is in the queue removes exactly the first node of that session with that mid; all
+   other messages - other mids, other sessions - keep their deadlines and counters. *)
+Theorem rt_known_ack_rst : forall st s m t n q',
+  sq_remove (rs_q st) s m = Some ((t, n), q') ->
+  qn_sess n = s /\ qn_mid n = m /\
+  (exists l1 l2 d, sq_abs (rs_base st) (rs_q st) = l1 ++ (d, n) :: l2 /\
+                   sq_abs (rs_base st) q' = l1 ++ l2 /\
+                   Forall (fun x => sq_match s m (snd x) = false) l1) /\
+  rt_step st (RtAck s m) =
+    (fst (rt_fire_all (rt_set_q st q')), RoAcked (rs_now st) (qn_uid n) :: snd (rt_fire_all (rt_set_q st q'))) /\
+  rt_step st (RtRst s m) =
+    (fst (rt_fire_all (rt_set_q st q')),
+     RoNack (rs_now st) (qn_uid n) (qn_sess n) rt_NACK_RST (qn_mid n) (qn_cnt n) (qn_max n)
+       :: snd (rt_fire_all (rt_set_q st q'))).
+Proof.
+  intros st s m t n q' H.
+  destruct (sq_remove_others _ (rs_base st) _ _ _ _ _ H) as (l1 & l2 & d & E1 & E2 & M & F).
+  unfold sq_match in M. apply andb_true_iff in M. destruct M as [M1 M2].
+  split; [lia|]. split; [lia|]. split; [exists l1, l2, d; auto|].
+  cbn [rt_step]. unfold rt_ack, rt_rst. rewrite H.
+  destruct (rt_fire_all (rt_set_q st q')); split; reflexivity.
+Qed.
